@@ -243,7 +243,7 @@ def run(c):
     # concurrent schedules
     traces, meta = gate_schedules(c, RACE_CFGS, wd, line_level=False, max_preemptions=8, max_runs=None)
     validate(c, traces, meta, 'gate-schedule')
-    traces, meta = gate_schedules(c, RACE_CFGS[:1] if quick else RACE_CFGS, wd, line_level=True,
+    traces, meta = gate_schedules(c, [RACE_CFGS[0], RACE_CFGS[3]] if quick else RACE_CFGS, wd, line_level=True,
                                   max_preemptions=1 if quick else 2, max_runs=150 if quick else 3000)
     validate(c, traces, meta, 'line-schedule')
     if not quick:
